@@ -8,6 +8,7 @@ import (
 	"bufio"
 	"fmt"
 	"os"
+	"runtime"
 	"testing"
 	"time"
 )
@@ -42,6 +43,41 @@ func TestVerifSlotEngine(t *testing.T) {
 			r := NewFromUnixNano(ts).IsFuture()
 			n1 := time.Now().UnixNano()
 			fmt.Fprintf(w, "F %d %d %d %d %v\n", ivSec, ts, n0, n1, r)
+		case "C": // clock bracket, a times: the slot of Now() is the slot of a clock reading taken between n0 and n1
+			for i := int64(0); i < a; i++ {
+				n0 := time.Now().UnixNano()
+				s := Now()
+				n1 := time.Now().UnixNano()
+				// RemainingTimeMS reads the clock too: bracket its millisecond
+				m0 := nsToMs(time.Now().UnixNano())
+				rem := s.RemainingTimeMS()
+				m1 := nsToMs(time.Now().UnixNano())
+				fmt.Fprintf(w, "C %d %d %d %d %d %d %d %d %d %d\n", ivSec, n0, s.timeNs, n1, s.timeMs, s.prevIndex, s.nextIndex, m0, rem, m1)
+			}
+			// Time(t) is the slot of t's own nanoseconds
+			t0 := time.Unix(0, b)
+			s := Time(t0)
+			fmt.Fprintf(w, "T %d %d %d %d %d %d\n", ivSec, b, s.timeNs, s.timeMs, s.prevIndex, s.nextIndex)
+		case "P": // phase probe (thorough tier): a probes within b seconds, IsFuture asked in the last half ms of a slot
+			runtime.LockOSThread()
+			ivNs := ivSec * 1000000000
+			deadline := time.Now().Add(time.Duration(b) * time.Second)
+			for probes := int64(0); probes < a && time.Now().Before(deadline); {
+				t0 := time.Now().UnixNano()
+				if ph := t0 % ivNs; ph < 520000 || ph > 900000 {
+					continue
+				}
+				k := msToNextIndex(nsToMs(t0))
+				ts := ((k+1)*blockIntervalMs + 1 + (probes*397)%blockIntervalMs) * 1000000 // a millisecond of slot k+2
+				got := NewFromUnixNano(ts).IsFuture()
+				t1 := time.Now().UnixNano()
+				near := NewFromUnixNano(((k)*blockIntervalMs + 1 + (probes*397)%blockIntervalMs) * 1000000).IsFuture() // slot k+1
+				t2 := time.Now().UnixNano()
+				fmt.Fprintf(w, "P %d %d %d %d %v %d %v\n", ivSec, t0, ts, t1, got, t2, near)
+				probes++
+				time.Sleep(time.Duration(ivNs-100000000) * time.Nanosecond)
+			}
+			runtime.UnlockOSThread()
 		case "R": // relations between two timestamps
 			s1, s2 := NewFromUnixNano(a), NewFromUnixNano(b)
 			fmt.Fprintf(w, "R %d %d %d %v %v %v\n", ivSec, a, b, Equal(s1, s2), IsNextTo(s1, s2), LessEqual(s1, s2))
